@@ -19,7 +19,7 @@ import (
 func Run(tier string) int {
 	rep := mc.NewReporter("C18", tier, "model_checking")
 	rep.Driver = "c18"
-	grammar, size, maxLen, alphabet := ref.SmallRegexGrammar, 4, 5, "abA\n"
+	grammar, size, maxLen, alphabet := ref.SmallRegexGrammar, 4, 5, "abA\n\xe9"
 	budget := 100 * time.Second
 	if tier == "thorough" {
 		grammar, size, maxLen = ref.FullRegexGrammar, 4, 6
@@ -42,6 +42,22 @@ func Run(tier string) int {
 			if !seen[r] {
 				regexes = append(regexes, r)
 				tinyFamily++
+			}
+		}
+	}
+	// literals above 0x7f (single bytes, not UTF-8 sequences)
+	highFamily := 0
+	{
+		seen := map[string]bool{}
+		for _, r := range regexes {
+			seen[r] = true
+		}
+		hb, _ := ref.HighByteRegexGrammar.Enumerate(4)
+		for _, r := range hb {
+			if !seen[r] && strings.Contains(r, `\xe9`) {
+				seen[r] = true
+				regexes = append(regexes, r)
+				highFamily++
 			}
 		}
 	}
@@ -197,6 +213,7 @@ func Run(tier string) int {
 	c["regex_texts_rejected_by_parser"] = rejected
 	c["regexes_literal_words_in_context"] = wordFamily
 	c["regexes_tiny_grammar"] = tinyFamily
+	c["regexes_high_byte_literals"] = highFamily
 	c["tiny_grammar_size"] = tinySize
 	c["spans_checked"] = spansChecked
 	c["matching_spans"] = matches
